@@ -77,6 +77,40 @@ CHECKS = {
         design_ref='DESIGN.md §2 C13',
         note='Trusted: the expectation computed from the abstract model (written from doc/source/file_formats.rst and the tokenizer docstring). .itp/.map/.mapping readers: see the c13 parts list in evidence; unique block/modification names; consistent per-atom attributes.',
         technique='Hypothesis grammar-based generation + model-based round trip; fault injection at generated positions'),
+    'C02': dict(
+        category='exploration',
+        text=('Generated molecules (1-25 atoms; sparse, negative, unordered node keys; atom ids absent, permuted, sparse or partial; '
+              'charge/mass present or not incl. exponent-form values; a dozen interaction sections incl. impropers, exclusions, '
+              'virtual_sitesn and custom ones; version / ifdef / ifndef / group / comment metas; pre/post lines; defines) are written '
+              'with write_molecule_itp and parsed by an independent ITP reader (no vermouth import). Atoms must be numbered 1..N in '
+              'model order and equal fieldwise; the multiset of interactions per (section, guard, node keys, parameters, comment) must '
+              'equal memory - nothing dropped, duplicated or re-attached. A weaker differential against the repository reader and a '
+              'contract part (documented ValueErrors) complete it.'),
+        design_ref='DESIGN.md §2 C02; notes/C02.md',
+        note='Trusted: the independent reader pbt/c02_ref_itp.py. Mass-without-charge and repeated post_section_lines are counted, not judged (outside the statement).',
+        technique='Hypothesis generated molecules, round trip through an independent reader, multiset comparison'),
+    'C05': dict(
+        category='exploration',
+        text=('Toy force fields with 1-6 generated links (attributes incl. Choice / NotDefinedOrNot, every order prefix and explicit '
+              'orders, edges, non-edges, patterns, molmeta, features, effectors, removals, replace incl. node deletion, versions, '
+              'overriding links), written as .ff text (parsed by read_ff) or built as objects, applied with DoLinks to molecules of '
+              '2-7 residues with gaps, repeats, branches and cycles; compared with a brute-force reference interpreter (all injective '
+              'assignments, conditions from the documentation): placements of match_link, final interactions as multisets, node '
+              'attributes, node set, and no unjustified interaction. The order relation table is enumerated exhaustively; the shipped '
+              'martini3001/martini22 link sets are checked on generated protein-like molecules.'),
+        design_ref='DESIGN.md §2 C05; notes/C05.md',
+        note='Trusted: the reference interpreter pbt/c05_ref_links.py. Situations the documentation leaves undefined (placements of one link that conflict with each other) are detected and only that interaction type is skipped.',
+        technique='Hypothesis generated links and molecules vs. brute-force reference interpreter; exhaustive enumeration of the order table'),
+    'C09': dict(
+        category='exploration',
+        text=('Generated particles (graphs of 0-8 atoms on a 1e-3 nm grid, weights incl. zeros, shared atoms, missing coordinates as '
+              'absent key or None, mass weighting, particles without graph) are run through do_average_bead / DoAverageBead and '
+              'compared with the exact rational weighted mean; NaN exactly when the positioned weights sum to zero; bounding box; '
+              'metamorphic exact rotations + translations, swapping missing markers, removing or re-weighting unpositioned atoms. '
+              'An end-to-end part runs real do_mapping first so that the weights come from real bookkeeping.'),
+        design_ref='DESIGN.md §2 C09; notes/C09.md',
+        note='Trusted: Fraction arithmetic on grid coordinates. Weight sums below 1e-7 but non-zero are outside the generated domain (the code treats them as zero).',
+        technique='Hypothesis generated inputs vs. exact-arithmetic oracle + metamorphic relations'),
 }
 
 NOT_YET = 'check not built yet in this round (planned, see DESIGN.md §2)'
